@@ -1,24 +1,24 @@
 // Kani concrete playback for harness k11_eq_clean_sum_b_y (module c10k.rs)
 // replay: vcheck.py --replay /verif/replays/C11/k11_eq_clean_sum_b_y.playback.rs
 #[test]
-fn kani_concrete_playback_k11_eq_clean_sum_b_y_9743352386694626062() {
+fn kani_concrete_playback_k11_eq_clean_sum_b_y_16564725408979996317() {
     let concrete_vals: Vec<Vec<u8>> = vec![
-        // 0
-        vec![0],
-        // 0
-        vec![0],
-        // 0
-        vec![0],
-        // 253
-        vec![253],
-        // 0ul
-        vec![0, 0, 0, 0, 0, 0, 0, 0],
-        // 0
-        vec![0],
+        // 227
+        vec![227],
         // 128
         vec![128],
         // 0
         vec![0],
+        // 1
+        vec![1],
+        // 2ul
+        vec![2, 0, 0, 0, 0, 0, 0, 0],
+        // 142
+        vec![142],
+        // 0
+        vec![0],
+        // 2
+        vec![2],
         // 1
         vec![1],
         // 0ul
